@@ -219,8 +219,12 @@ func payload(tag string, n int) []byte {
 
 func makeItem(tag string, r *vrng, invalid string) *api.Item {
 	it := &api.Item{Name: "n-" + tag, Code: "abc-" + tag}
-	if r.coin() {
+	switch r.intn(4) {
+	case 0:
 		it.Note.SetTo("note " + tag)
+	case 1:
+		// exactly as long as maxLength admits, counted in characters (twice as many bytes)
+		it.Note.SetTo(strings.Repeat("é", 30-len(tag)) + tag)
 	}
 	if r.coin() {
 		it.Level.SetTo(r.intn(1000000))
@@ -304,6 +308,31 @@ func makeItem(tag string, r *vrng, invalid string) *api.Item {
 		it.Kind.SetTo(api.ItemKind("zzz"))
 	case "tagpattern":
 		it.Tags = []string{"t1-" + tag, "BAD-" + tag}
+	case "maxItems":
+		it.Tags = []string{"t1-" + tag, "t2-" + tag, "t3-" + tag, "t4-" + tag, "t5-" + tag}
+	case "unique":
+		// the repeated member is the last one
+		it.Tags = []string{"t1-" + tag, "t2-" + tag, "t3-" + tag, "t2-" + tag}
+	case "notelong":
+		it.Note.SetTo(strings.Repeat("n", 31-len(tag)) + tag)
+	case "aliaslong":
+		// a validator behind a nullable, optional wrapper
+		it.Alias.SetTo("al-" + tag + strings.Repeat("x", 24))
+	case "retriesbig":
+		it.Retries.SetTo(101)
+	case "ratioedge":
+		// the bound itself, which exclusiveMinimum excludes
+		it.Ratio.SetTo(-1000)
+	case "subnum":
+		// the offending member is the last one of an array inside a nested object
+		it.Sub.SetTo(api.ItemSub{ID: 7, Nums: []int{1, 2, -1}})
+	case "sublabel":
+		it.Sub.SetTo(api.ItemSub{ID: 7, Label: api.NewOptString("l-" + tag + strings.Repeat("y", 40))})
+	case "attrlong":
+		// a validator on the values of a map
+		it.Attrs.SetTo(api.ItemAttrs{"k0": "v0-" + tag, "k1": strings.Repeat("z", 65)})
+	case "attrsempty":
+		it.Attrs.SetTo(api.ItemAttrs{})
 	}
 	return it
 }
